@@ -402,3 +402,23 @@ def gen_q_prog(rng, rows, cap=5):
         if rng.random() < 0.4:
             prog.append(["ins", "qfree", [], [q]])
     return prog
+
+
+def with_repeats(rng, prog):
+    """repeat some instructions that contain a literal later in the program (same operands), as loops unrolled by a
+    caller or helper functions of an application do; with shared operand objects this is what exposes in-place
+    rewriting by the assembler"""
+    prog = [list(c) for c in prog]
+    cand = [i for i, c in enumerate(prog) if c[0] == "ins" and c[1] not in ("array",) and not c[2]
+            and any(o[0] == "lit" or (o[0] == "entry" and o[2][0] == "lit") or
+                    (o[0] == "slice" and "lit" in (o[2][0], o[3][0])) for o in c[3])
+            and not any(o[0] == "label" for o in c[3])]
+    chosen = [prog[i] for i in rng.sample(cand, min(len(cand), rng.randint(1, 3)))]
+    for c in chosen:
+        i = next(k for k, x in enumerate(prog) if x is c)
+        # never in front of an `array` whose size comes from a register (a repeated instruction could make it huge)
+        ok = [j for j in range(i + 1, len(prog) + 1)
+              if not (j < len(prog) and prog[j][0] == "ins" and prog[j][1] == "array" and prog[j][3][0][0] == "reg")]
+        if ok:
+            prog.insert(rng.choice(ok), ["ins", c[1], [], [o for o in c[3]]])
+    return prog
